@@ -74,6 +74,22 @@ class Env:
 _MISSING = object()
 
 
+def _pure_test(node):
+    """comparisons / names / constants / boolean combinations of those: evaluation order and
+    short-circuiting cannot be observed"""
+    if isinstance(node, ast.Compare):
+        return all(isinstance(x, (ast.Name, ast.Constant, ast.Attribute, ast.UnaryOp, ast.BinOp)) and _no_calls(x) for x in [node.left] + node.comparators)
+    if isinstance(node, ast.BoolOp):
+        return all(_pure_test(x) for x in node.values)
+    if isinstance(node, ast.UnaryOp) and isinstance(node.op, ast.Not):
+        return _pure_test(node.operand)
+    return isinstance(node, (ast.Name, ast.Constant))
+
+
+def _no_calls(node):
+    return not any(isinstance(n, (ast.Call, ast.Subscript)) for n in ast.walk(node))
+
+
 class StarPack:
     """opaque *args / **kwargs of a function verified for arbitrary extra arguments"""
 
@@ -404,8 +420,18 @@ class Interp:
         if isinstance(tgt, ast.Name):
             getter = lambda: env.vars.get(tgt.id, _MISSING)
             setter = lambda v: env.vars.__setitem__(tgt.id, v)
-        elif isinstance(tgt, ast.Subscript) and isinstance(tgt.slice, ast.Constant):
-            return False
+        elif isinstance(tgt, ast.Subscript) and isinstance(tgt.slice, ast.Constant) and isinstance(tgt.slice.value, str):
+            if not isinstance(tv, T.Term) or tv.sort != T.BOOL or tv.op == "const":
+                return False
+            holder = self.eval(tgt.value, env)
+            key = tgt.slice.value
+            if not isinstance(holder, dict) or key not in holder:
+                return False
+            getter = lambda: holder[key]
+
+            def setter(v):
+                cur().effects.append(("dict-write", id(holder), key))
+                holder[key] = v
         else:
             return False
         if not isinstance(tv, T.Term) or tv.sort != T.BOOL or tv.op == "const":
@@ -464,6 +490,9 @@ class Interp:
 
     def s_For(self, node, env):
         it = self.eval(node.iter, env)
+        if isinstance(it, A.SIntList):
+            lst = it
+            it = SSeq(lst.n, lambda k: lst.at(k), f"items of {lst.name}")
         if isinstance(it, SSeq) or hasattr(it, "pyvc_symbolic_iter"):
             from .loops import exec_symbolic_for
 
@@ -733,6 +762,14 @@ class Interp:
             last = self.eval(e, env)
             if i == len(node.values) - 1:
                 return last
+            if isinstance(last, T.Term) and last.sort == T.BOOL and last.op != "const" and all(_pure_test(x) for x in node.values[i + 1:]):
+                # symbolic and side-effect free operands: one Boolean term, no path fork
+                acc = last
+                ok = True
+                for x in node.values[i + 1:]:
+                    v = self.truth_term(self.eval(x, env))
+                    acc = T.and_(acc, T.lift(v)) if is_and else T.or_(acc, T.lift(v))
+                return acc
             t = self.truth(last, why=f"boolop@{node.lineno}")
             if is_and and not t:
                 return last if not isinstance(last, T.Term) else False
@@ -1577,6 +1614,8 @@ class Interp:
                     raise PyRaise(ExcValue("StopIteration", ()))
             if isinstance(x, _SymIter):
                 return x.next(it)
+            if hasattr(x, "pyvc_next"):
+                return x.pyvc_next(it)
             raise Unsupported(f"next of {type(x).__name__}")
 
         @reg("any")
